@@ -185,7 +185,10 @@ def gen_case(rng, tier, idx):
                 ops2 = ops if (i < split or style == 4 and i % 2 == 0) else (att(1) if rng.random() < 0.5 else [1, rng.randint(0, 3), 7])
                 parts.append("1." + _prog(ops2))
         toks.append(",".join(parts) if parts else "-")
-    cps = ",".join(str(t) for t in sorted({rng.randint(0, n), rng.randint(1, n)}))
+    cpset = {rng.randint(0, n), rng.randint(1, n)}
+    if style == 1 and n >= 3:
+        cpset.add(3)        # create / attach / delete: the graph of tick 3 is the genesis graph again
+    cps = ",".join(str(t) for t in sorted(cpset))
     return f"wls={wls} prog={'/'.join(toks)} cps={cps}" + (f" heads={heads}" if heads > 1 else "")
 
 
@@ -481,7 +484,7 @@ def correspondence(r, cases, by_case, tier):
         # phase B: predicted outcome of every alteration
         for (m, tg, roots), (sres, svc) in zip(meta, res):
             nmodel += 1
-            seek_impl = dict(x.split("=", 1) for x in m["seek"].split(",")) if m["seek"] != "-" else {}
+            seek_impl = dict(x.split("=", 1) for x in m["seek"].split(",") if "=" in x) if m["seek"] != "-" else {}
             ok = True
             for t, enc in zip(tg, sres):
                 mine = render_res(enc, roots, t, "seek")
